@@ -4,17 +4,17 @@ From Crux Require Import Cli.Format Cli.Pipeline.
 Import ListNotations.
 Open Scope string_scope.
 
-Definition i0 : item := mkItem ("crux_platform", 0%N) (Some "effect") KField false None (Some (FTypeName "PhantomData")) None.
-Definition i1 : item := mkItem ("crux_platform", 3%N) (Some "event") KField false None (Some (FTypeName "PhantomData")) None.
-Definition i2 : item := mkItem ("crux_platform", 4%N) (Some "Platform") (KStructPlain [0%N; 3%N]) false None None None.
-Definition i3 : item := mkItem ("crux_platform", 8%N) (Some "PlatformResponse") (KStructTuple [110%N]) false None None None.
-Definition i4 : item := mkItem ("crux_platform", 12%N) (Some "PlatformRequest") KStructUnit false None None None.
-Definition i5 : item := mkItem ("crux_platform", 107%N) (Some "Output") KOther false None None None.
-Definition i6 : item := mkItem ("crux_platform", 110%N) (Some "0") KField false (Some "0") (Some (FPrim PStr)) None.
-Definition i7 : item := mkItem ("crux_platform", 137%N) (Some "context") KField false None (Some (FTypeName "CapabilityContext")) None.
-Definition i8 : item := mkItem ("crux_platform", 139%N) (Some "Platform") (KStructPlain [137%N]) false None None None.
-Definition i9 : item := mkItem ("crux_platform", 157%N) (Some "Operation") KOther false None None None.
-Definition i10 : item := mkItem ("crux_platform", 158%N) (Some "MappedSelf") KOther false None None None.
+Definition i0 : item := mkItem ("crux_platform", 0%N) (Some "effect") (Some "effect") KField false None (Some (FTypeName "PhantomData")) None.
+Definition i1 : item := mkItem ("crux_platform", 3%N) (Some "event") (Some "event") KField false None (Some (FTypeName "PhantomData")) None.
+Definition i2 : item := mkItem ("crux_platform", 4%N) (Some "Platform") (Some "Platform") (KStructPlain [0%N; 3%N]) false None None None.
+Definition i3 : item := mkItem ("crux_platform", 8%N) (Some "PlatformResponse") (Some "PlatformResponse") (KStructTuple [110%N]) false None None None.
+Definition i4 : item := mkItem ("crux_platform", 12%N) (Some "PlatformRequest") (Some "PlatformRequest") KStructUnit false None None None.
+Definition i5 : item := mkItem ("crux_platform", 107%N) (Some "Output") (Some "Output") KOther false None None None.
+Definition i6 : item := mkItem ("crux_platform", 110%N) (Some "0") (Some "0") KField false (Some "0") (Some (FPrim PStr)) None.
+Definition i7 : item := mkItem ("crux_platform", 137%N) (Some "context") (Some "context") KField false None (Some (FTypeName "CapabilityContext")) None.
+Definition i8 : item := mkItem ("crux_platform", 139%N) (Some "Platform") (Some "Platform") (KStructPlain [137%N]) false None None None.
+Definition i9 : item := mkItem ("crux_platform", 157%N) (Some "Operation") (Some "Operation") KOther false None None None.
+Definition i10 : item := mkItem ("crux_platform", 158%N) (Some "MappedSelf") (Some "MappedSelf") KOther false None None None.
 Definition items : list item := [i0; i1; i2; i3; i4; i5; i6; i7; i8; i9; i10].
 Definition edge_list : edges := [(i3, i6); (i4, i4)].
 Definition edge_flags : list (bool * bool) := [(true, false); (false, false)].
